@@ -102,6 +102,12 @@ func (c *c04Cons) published(n int) {
 	c.mu.Unlock()
 }
 
+func (c *c04Cons) isStalled() bool {
+	c.mu.Lock()
+	defer c.mu.Unlock()
+	return c.stalled
+}
+
 func (c *c04Cons) release() {
 	c.mu.Lock()
 	c.phases = nil
@@ -116,11 +122,14 @@ func buildC04Media(tier string) sim.Scenario {
 	var s *media.Stream
 	var pkts []*rtp.Packet
 	var isKey []bool
-	var healthy, stall, panicker *c04Cons
+	var healthy, stall, panicker, joiner *c04Cons
+	var joinerCID media.CID
+	var joinedAt int
 	var stallCID, panicCID, healthyCID media.CID
 	var G, N int
 	var pubDone bool
 	var forever bool
+	var catchUp bool
 	var Gp int                // largest distance in packets between two key-frame packets
 	var mustFrom map[int]bool // key packets published while the stalled consumer's backlog was below the limit
 
@@ -128,7 +137,7 @@ func buildC04Media(tier string) sim.Scenario {
 		w.PanicClass = "C04/panic"
 		tp := w.Tape
 		resetWorld(tp.Bool())
-		G = []int{25, 1, 3, 120, 400, 0}[tp.Choose(6)]
+		G = []int{25, 1, 3, 120, 400, 0, 1500}[tp.Choose(7)]
 		N = []int{1300, 2400, 4000}[tp.Choose(3)]
 		withAudio := tp.Bool()
 		// packets
@@ -160,6 +169,9 @@ func buildC04Media(tier string) sim.Scenario {
 				lastKey = i
 			}
 		}
+		if lastKey >= 0 && Gp > 0 && len(isKey)-lastKey > Gp {
+			Gp = len(isKey) - lastKey // the unfinished last GOP
+		}
 		mustFrom = map[int]bool{}
 		healthy = &c04Cons{w: w, name: "healthy", yieldIn: tp.Bool()}
 		stall = &c04Cons{w: w, name: "stalled", yieldIn: tp.Bool()}
@@ -174,6 +186,12 @@ func buildC04Media(tier string) sim.Scenario {
 			}
 			stall.phases = append(stall.phases, c04Phase{atConsumed: at, untilPub: until})
 			at += 1 + tp.Choose(300)
+		}
+		catchUp = tp.Bool()
+		joinAt := -1
+		if tp.Bool() {
+			joinAt = 200 + tp.Choose(N-400)
+			joiner = &c04Cons{w: w, name: "joiner", yieldIn: tp.Bool()}
 		}
 		if tp.Bool() {
 			panicker = &c04Cons{w: w, name: "panicker", panicAt: 1 + tp.Choose(N/2)}
@@ -193,6 +211,17 @@ func buildC04Media(tier string) sim.Scenario {
 			defer close(done)
 			maxQ := 0
 			for i, p := range pkts {
+				if i == joinAt {
+					// a late joiner with GOP replay (its replay may itself exceed the limit); it reads fast
+					joinerCID = s.StartConsume(joiner, media.RTPPacket, "joiner")
+					joinedAt = i
+					w.Fault("late-join-with-replay")
+				}
+				if joiner != nil && joinedAt > 0 {
+					for k := 0; s.VerifQueueLen(joinerCID) > 300 && k < 40000; k++ {
+						w.Y("pub.paceJoiner")
+					}
+				}
 				if isKey[i] && s.VerifQueueLen(stallCID) < 1000 {
 					mustFrom[i] = true
 				}
@@ -200,13 +229,21 @@ func buildC04Media(tier string) sim.Scenario {
 					w.Fail("C04/publish-error", "WriteRtpPacket(%d): %v", i, err)
 					return
 				}
+				wasStalled := stall.isStalled()
 				stall.published(i + 1)
+				if catchUp && wasStalled && !stall.isStalled() {
+					// the consumer resumes and is now faster than the publisher: let it drain its backlog completely
+					w.Fault("consumer-catches-up")
+					for k := 0; s.VerifQueueLen(stallCID) > 0 && k < 40000; k++ {
+						w.Y("pub.waitDrain")
+					}
+				}
 				if q := s.VerifQueueLen(stallCID); q > maxQ {
 					maxQ = q
 					if q > 1000 {
 						w.Probe("c04.backlog-over-limit")
 					}
-					if G > 0 && q > 1000+Gp {
+					if G > 0 && Gp > 0 && q > 1000+Gp {
 						w.Fail("C04/backlog-unbounded", "after publishing packet %d the stalled consumer's backlog is %d > 1000 + one GOP (%d packets)", i, q, Gp)
 						return
 					}
@@ -308,6 +345,31 @@ func buildC04Media(tier string) sim.Scenario {
 				}
 			}
 		}
+		// late joiner (never stalls): after its replay it gets everything; whatever is missing must be GOP-aligned
+		if joiner != nil && joinedAt > 0 {
+			last := -1
+			for _, p := range joiner.got {
+				i := idx[p]
+				if i < joinedAt {
+					continue // the replayed part (video GOP only) is C02's business
+				}
+				if last < 0 && i != joinedAt {
+					w.Fail("C04/drop-not-gop-aligned", "late joiner (joined at packet %d, never stalled): live delivery began at packet %d", joinedAt, i)
+					break
+				}
+				if last >= 0 && i != last+1 {
+					a := last + 1
+					if !isKey[a] || !isKey[i] {
+						w.Fail("C04/drop-not-gop-aligned", "late joiner (joined at packet %d with GOP replay, never stalled): packets %d..%d were dropped; a drop must begin at a key-frame packet and delivery resume at one (G=%d)", joinedAt, a, i-1, G)
+						break
+					}
+				}
+				last = i
+			}
+			if last != len(pkts)-1 && last >= 0 && !isKey[last+1] {
+				w.Fail("C04/drop-not-gop-aligned", "late joiner (joined at packet %d, never stalled): packets %d..end were dropped, not beginning at a key-frame packet (G=%d)", joinedAt, last+1, G)
+			}
+		}
 		// panicker: detached and closed, nobody else affected
 		if panicker != nil && len(panicker.got) >= panicker.panicAt {
 			if panicker.closed == 0 {
@@ -321,6 +383,9 @@ func buildC04Media(tier string) sim.Scenario {
 			}
 		}
 		want := 2
+		if joiner != nil && joinedAt > 0 {
+			want = 3
+		}
 		if forever {
 			// the forever-stalled consumer is still attached, blocked inside Consume
 		}
